@@ -51,6 +51,21 @@ async fn settle() {
 
 /// writer whose first write waits until the harness opens the gate (models the time a dial takes:
 /// the request is past `get_idle_session` and inside `create_new_session`)
+/// writer that accepts everything but whose shutdown never completes (peer gone without FIN)
+struct StallWriter;
+
+impl AsyncWrite for StallWriter {
+    fn poll_write(self: Pin<&mut Self>, _cx: &mut Context<'_>, buf: &[u8]) -> Poll<std::io::Result<usize>> {
+        Poll::Ready(Ok(buf.len()))
+    }
+    fn poll_flush(self: Pin<&mut Self>, _cx: &mut Context<'_>) -> Poll<std::io::Result<()>> {
+        Poll::Ready(Ok(()))
+    }
+    fn poll_shutdown(self: Pin<&mut Self>, _cx: &mut Context<'_>) -> Poll<std::io::Result<()>> {
+        Poll::Pending
+    }
+}
+
 struct GateWriter {
     inner: RecWriter,
     gate: Option<oneshot::Receiver<()>>,
@@ -339,17 +354,52 @@ fn bpool(args: &[&str]) -> String {
     let rt = paused_rt();
     rt.block_on(async move {
         let start = Instant::now();
-        let pool = SessionPool::with_config(SessionPoolConfig {
+        let pool = Arc::new(SessionPool::with_config(SessionPoolConfig {
             check_interval: ms(i),
             idle_timeout: ms(t),
             min_idle_sessions: m,
-        });
+        }));
         let mut sessions: Vec<Arc<Session>> = Vec::new();
         let mut out = Vec::new();
         for (at, op, n) in ops {
             tokio::time::sleep_until(start + ms(at)).await;
             let mut res = "-".to_string();
             match op {
+                'N' => {
+                    // a session whose transport shutdown never completes: Session::close waits its 1 s timeout
+                    let (r, _tx2) = ChanReader::new();
+                    std::mem::forget(_tx2);
+                    let s = Arc::new(Session::new_client(r, StallWriter, PaddingFactory::default(), None));
+                    s.set_seq(n);
+                    sessions.push(s);
+                }
+                'G' | 'E' => {
+                    // a reaper pass starts at this instant (G: the periodic task fires by itself; E: cleanup_expired()
+                    // is called from a task); n ms into the pass a request asks the pool for a session
+                    let pass = if op == 'E' {
+                        let p2 = pool.clone();
+                        Some(tokio::spawn(async move { p2.cleanup_expired().await }))
+                    } else {
+                        None
+                    };
+                    tokio::time::sleep(ms(n)).await;
+                    res = match tokio::time::timeout(ms(20000), pool.get_idle_session()).await {
+                        Ok(Some(s)) => match sessions.iter().position(|x| x.id() == s.id()) {
+                            Some(k) => {
+                                // what a request does next: open a stream on it
+                                let _ = s.open_stream().await;
+                                format!("s{}", k)
+                            }
+                            None => "unknown".to_string(),
+                        },
+                        Ok(None) => "none".to_string(),
+                        Err(_) => "get-stuck".to_string(),
+                    };
+                    if let Some(p) = pass {
+                        let _ = p.await;
+                    }
+                    tokio::time::sleep(ms(4000)).await;
+                }
                 'n' => {
                     let (w, _h, _r, _tx) = transport::pipe();
                     let (r, _tx2) = ChanReader::new();
@@ -404,7 +454,7 @@ struct PeerLog {
 /// reads the client's bytes, answers Syn with SynAck at once and the k-th HeartRequest after
 /// `script[k]` ms (None / beyond the script: never)
 async fn scripted_peer(
-    mut r: ChanReader,
+    mut r: BoxR,
     w: RecWriter,
     preamble: bool,
     script: Vec<Option<u64>>,
@@ -476,13 +526,33 @@ async fn scripted_peer(
     }
 }
 
+/// the client -> peer direction: unbounded recording pipe, or a bounded in-memory pipe of `cap` bytes
+fn c2s_transport(cap: Option<usize>) -> (BoxW, BoxR) {
+    match cap {
+        None => {
+            let (w, _h, r, _tx) = transport::pipe();
+            (Box::new(w) as BoxW, Box::new(r) as BoxR)
+        }
+        Some(n) => {
+            let (a, b) = tokio::io::duplex(n.max(1));
+            (Box::new(a) as BoxW, Box::new(b) as BoxR)
+        }
+    }
+}
+
 /// hb <mode> <I> <T> <H> <delay|x>...
 ///   mode s: bare client `Session` with heartbeat (I, T);  c: through `Client` (pool config (I, T)), one stream open;
 ///        ct: as c, with stream traffic every 700 ms
 ///   the k-th keep-alive request is answered after delay ms (x: never); requests beyond the script are not answered
 /// result: q <request times> | c <close time> or o (still open at H)
 fn hb(args: &[&str]) -> String {
-    let mode = args[0].to_string();
+    // mode = s | c | ct, optionally followed by the capacity in bytes of the client -> peer transport
+    // (e.g. s64, c256): a bounded pipe, so that a padded packet is still being written while the peer
+    // already reads and answers its first bytes; without digits the transport is unbounded
+    let mode_tok = args[0].to_string();
+    let split = mode_tok.find(|c: char| c.is_ascii_digit()).unwrap_or(mode_tok.len());
+    let mode = mode_tok[..split].to_string();
+    let cap: Option<usize> = if split < mode_tok.len() { mode_tok[split..].parse().ok() } else { None };
     let i: u64 = args[1].parse().unwrap();
     let t: u64 = args[2].parse().unwrap();
     let h: u64 = args[3].parse().unwrap();
@@ -501,7 +571,7 @@ fn hb(args: &[&str]) -> String {
         let mut _keep: Vec<Arc<Stream>> = Vec::new();
         let mut _client: Option<Arc<Client>> = None;
         if mode == "s" {
-            let (c2s_w, _h1, c2s_r, _tx1) = transport::pipe();
+            let (c2s_w, c2s_r) = c2s_transport(cap);
             let (s2c_w, _h2, s2c_r, _tx2) = transport::pipe();
             tokio::spawn(scripted_peer(c2s_r, s2c_w, false, script, start, log.clone()));
             let s = Arc::new(Session::new_client(
@@ -523,12 +593,12 @@ fn hb(args: &[&str]) -> String {
             let slot: Arc<Mutex<Option<(Vec<Option<u64>>, Arc<Mutex<PeerLog>>)>>> =
                 Arc::new(Mutex::new(Some((script, log.clone()))));
             client.verif_set_connector(Some(Arc::new(move || {
-                let (c2s_w, _h1, c2s_r, _tx1) = transport::pipe();
+                let (c2s_w, c2s_r) = c2s_transport(cap);
                 let (s2c_w, _h2, s2c_r, _tx2) = transport::pipe();
                 if let Some((script, log)) = slot.lock().unwrap().take() {
                     tokio::spawn(scripted_peer(c2s_r, s2c_w, true, script, start, log));
                 }
-                (Box::new(s2c_r) as BoxR, Box::new(c2s_w) as BoxW)
+                (Box::new(s2c_r) as BoxR, c2s_w)
             })));
             match client.create_proxy_stream(("192.0.2.1".to_string(), 80)).await {
                 Ok((st, s)) => {
@@ -721,6 +791,33 @@ fn poolreal(args: &[&str]) -> String {
                         Ok(r) => run.take(Ok(r), 0),
                         Err(_) => "stuck".to_string(),
                     }
+                }
+                'b' => {
+                    // n requests at once (they overlap: each is inside its TLS dial while the others start)
+                    let mut hs = Vec::new();
+                    for _ in 0..n {
+                        let c = run.client.clone();
+                        let dest = (echo_addr.ip().to_string(), echo_addr.port());
+                        hs.push(tokio::spawn(async move {
+                            tokio::time::timeout(ms(5000), c.create_proxy_stream(dest)).await
+                        }));
+                    }
+                    let mut got = Vec::new();
+                    let mut toks = Vec::new();
+                    for h in hs {
+                        match h.await {
+                            Ok(Ok(Ok(x))) => got.push(x),
+                            Ok(Ok(Err(_))) => toks.push("err".to_string()),
+                            _ => toks.push("stuck".to_string()),
+                        }
+                    }
+                    // sessions are numbered in creation order = order of their pool keys
+                    got.sort_by_key(|(_, s)| s.seq());
+                    for x in got {
+                        toks.push(run.take(Ok(Ok(x)), 0));
+                    }
+                    toks.sort();
+                    toks.join("+")
                 }
                 'd' => {
                     if let Some(p) = run.streams.iter().position(|(k, _)| *k == n as usize) {
